@@ -3,8 +3,10 @@
 patch="$1"; pid="$2"; tier="${3:-quick}"
 cd /repo || exit 2
 if ! git diff --quiet -- coxeter; then echo "/repo has uncommitted changes"; exit 2; fi
-git apply "$patch" 2>/dev/null || git apply -3 "$patch" || { echo "patch does not apply"; git checkout -- . ; exit 2; }
+if ! git apply "$patch" 2>/dev/null; then
+  if ! patch -p1 --fuzz=3 -s < "$patch"; then echo "patch does not apply"; git reset -q --hard HEAD; git clean -fdq -- coxeter; exit 2; fi
+fi
 cd /verif && ./check "$pid" --tier "$tier" 2>&1 | grep -E "VIOLATION|KNOWN|MACHINERY|^$pid" | head -8
 rc=${PIPESTATUS[0]}
-git -C /repo checkout -- . ; git -C /repo reset -q
+git -C /repo reset -q --hard HEAD; git -C /repo clean -fdq -- coxeter
 exit $rc
